@@ -818,7 +818,14 @@ func (e *Env) runRPC() error {
 			if c != nil {
 				c.SetSalt(step.Salt)
 				e.Srv.LogNote("new-session", c, 0, fmt.Sprintf("salt=%d", step.Salt))
-				c.Send((&refsrv.W{}).U32(refsrv.IDNewSession).I64(time.Now().Unix()<<32).I64(int64(i)+1).I64(step.Salt).B, true)
+				uid := int64(i) + 1
+				switch spec.NewSessionUID {
+				case "zero":
+					uid = 0
+				case "same":
+					uid = 0x5e55107
+				}
+				c.Send((&refsrv.W{}).U32(refsrv.IDNewSession).I64(time.Now().Unix()<<32).I64(uid).I64(step.Salt).B, true)
 			}
 		case "close":
 			if c := st.conn(step.Server); c != nil {
